@@ -71,9 +71,10 @@ def fmt_locs(locs):
     return "-" if not locs else " ; ".join("%d %d %d" % (l.start, l.end, l.strand) for l in locs)
 
 
-def impl_find(pstring, seq, loc):
+def impl_find(pstring, seq, loc, pat=None):
     from dnachisel import SequencePattern, Location
-    pat = SequencePattern.from_string(pstring)
+    if pat is None:
+        pat = SequencePattern.from_string(pstring)
     try:
         if loc is None:
             return fmt_locs(pat.find_matches(seq)), pat
@@ -103,7 +104,20 @@ def cases(ctx, rng, n_random, exhaustive_small):
             if r > 0.95:
                 b = b + rng.randint(1, 5)   # beyond the sequence (malformed stream)
             loc = (a, b, rng.choice([-1, 0, 1]))
-        out.append((ps, toks, seq, loc))
+        out.append((ps, toks, seq, loc, False))
+        if loc is not None and rng.random() < 0.3:
+            # the same pattern OBJECT searched again: same sequence and span on other strands, a sub-span,
+            # and an edited sequence (a pattern object must not remember anything between searches)
+            for _ in range(rng.randint(1, 4)):
+                r2 = rng.random()
+                seq2, a2, b2 = seq, loc[0], loc[1]
+                if r2 < 0.25 and len(seq) > 0:
+                    i = rng.randint(0, len(seq) - 1)
+                    seq2 = seq[:i] + rng.choice("ATGC") + seq[i + 1:]
+                elif r2 < 0.4 and loc[1] <= len(seq) and loc[1] - loc[0] >= 2:
+                    a2 = rng.randint(loc[0], loc[1] - 1)
+                    b2 = rng.randint(a2, loc[1])
+                out.append((ps, toks, seq2, (a2, b2, rng.choice([-1, 0, 1, 1])), True))
     if exhaustive_small:
         for plen in (1, 2):
             for p in itertools.product("ATN", repeat=plen):
@@ -114,7 +128,7 @@ def cases(ctx, rng, n_random, exhaustive_small):
                         for a in range(n + 1):
                             for b in range(a, n + 1):
                                 for st in (-1, 0, 1):
-                                    out.append((ps, "dna " + ps, seq, (a, b, st)))
+                                    out.append((ps, "dna " + ps, seq, (a, b, st), False))
     return out
 
 
@@ -122,13 +136,15 @@ def correspondence(ctx):
     from dnachisel import SequencePattern
     rng = ctx.rng
     c = vlib.Corr()
-    for ps, toks, seq, loc in cases(ctx, rng, ctx.n(6000), ctx.thorough):
-        ans, pat = impl_find(ps, seq, loc)
+    pat = None
+    for ps, toks, seq, loc, reuse in cases(ctx, rng, ctx.n(6000), ctx.thorough):
+        ans, pat = impl_find(ps, seq, loc, pat if reuse else None)
         nmatch = 0 if ans in ("-", "KeyError") else ans.count(";") + 1
         line = "pat.find %s %s" % (toks, vlib.seq_tok(seq)) + ("" if loc is None else " %d %d %d" % loc)
         nontriv = nmatch >= 1 and (nmatch >= 2 or (loc is not None and loc[2] != 1))
         c.add(line, ans, nontrivial=nontriv,
-              branch="find:%s:%s:%s" % (toks.split()[0], "none" if loc is None else loc[2], "hit" if nmatch else "miss"))
+              branch="find:%s:%s:%s%s" % (toks.split()[0], "none" if loc is None else loc[2], "hit" if nmatch else "miss",
+                                          ":same-object" if reuse else ""))
     for _ in range(ctx.n(600)):
         ps = rand_pattern(rng)
         pat = SequencePattern.from_string(ps)
@@ -180,7 +196,8 @@ def expected(toks, seq, loc):
     return fw_set | rv_set, None
 
 
-def oracle_one(ps, toks, seq, loc, out):
+def oracle_one(ps, toks, seq, loc, out, hist=None):
+    """`hist`: earlier searches [(seq, loc), ...] made with the same pattern object before this one"""
     if loc is None or loc[1] > len(seq) or any(ch not in "ATGC" for ch in seq):
         return 0
     kind = toks.split()
@@ -190,6 +207,11 @@ def oracle_one(ps, toks, seq, loc, out):
         return 0
     from dnachisel import SequencePattern, Location
     pat = SequencePattern.from_string(ps)
+    for hseq, hloc in (hist or []):
+        try:
+            pat.find_matches(hseq, Location(*hloc))
+        except Exception:
+            pass
     got = pat.find_matches(seq, Location(*loc))
     got_t = [(l.start, l.end, l.strand) for l in got]
     want, want_spans = expected(toks, seq, loc)
@@ -202,7 +224,8 @@ def oracle_one(ps, toks, seq, loc, out):
     else:
         ok = sorted(got_t) == sorted(want)   # exact occurrences with their strand, no duplicates
     if not ok:
-        out.append(dict(kind="find-matches", input=[ps, seq, list(loc)],
+        out.append(dict(kind="find-matches" + (":same-object" if hist else ""),
+                        input=[ps, seq, list(loc)] + ([[[h[0], list(h[1])] for h in hist]] if hist else []),
                         detail="got %s expected spans %s" % (got_t, want_spans_all)))
     return 1
 
@@ -211,8 +234,12 @@ def search(ctx, budget, hints):
     rng = vlib.Rng(ctx.seed + 1111)
     out = []
     n = 0
-    for ps, toks, seq, loc in cases(ctx, rng, 2500 * budget, True):
-        n += oracle_one(ps, toks, seq, loc, out)
+    hist = []
+    for ps, toks, seq, loc, reuse in cases(ctx, rng, 2500 * budget, True):
+        hist = hist if reuse else []
+        n += oracle_one(ps, toks, seq, loc, out, list(hist))
+        if loc is not None:
+            hist.append((seq, loc))
     best = {}
     for c in out:
         if c["kind"] not in best or len(str(c["input"])) < len(str(best[c["kind"]]["input"])):
@@ -223,6 +250,7 @@ def search(ctx, budget, hints):
 
 def replay(ctx, case):
     out = []
-    ps, seq, loc = case["input"]
-    oracle_one(ps, parse_shorthand(ps), seq, tuple(loc), out)
+    ps, seq, loc = case["input"][:3]
+    hist = [(h[0], tuple(h[1])) for h in case["input"][3]] if len(case["input"]) > 3 else None
+    oracle_one(ps, parse_shorthand(ps), seq, tuple(loc), out, hist)
     return bool(out)
